@@ -117,6 +117,29 @@ pub fn per_set<S: MlDsa>(seed: u64, thorough: bool, out: &mut Out) {
         // every single count byte +-1, and one index byte changed to each neighbour relation
         for i in 0..S::K { for d in [1i32, -1] { let v = y[om + i] as i32 + d; if (0..256).contains(&v) { let mut y2 = y.clone(); y2[om + i] = v as u8; ev_hint_unpack::<S>(out, &format!("{} / count[{}] {:+}", name, i, d), &y2); } } }
     }
+    // repeated positions (must be refused: positions strictly increase inside a polynomial), for positions at both ends of the
+    // byte range (0, 255: where "next allowed position" arithmetic can wrap or saturate) and in the middle, as the last pair and
+    // as an inner pair of a polynomial, in the first / a middle / the last polynomial
+    for rep in [0u8, 1, 127, 128, 254, 255] {
+        for i in [0usize, S::K / 2, S::K - 1] {
+            for inner in [false, true] {
+                let mut y = vec![0u8; om + S::K];
+                let mut idx = 0usize;
+                for j in 0..S::K {
+                    if j == i {
+                        let mut pos: Vec<u8> = vec![];
+                        if rep >= 2 { pos.push(rep / 2); }
+                        pos.push(rep); pos.push(rep);
+                        if inner && rep < 255 { pos.push(255); }
+                        if inner && rep == 255 { pos.insert(0, 3); }
+                        for q in pos { y[idx] = q; idx += 1; }
+                    }
+                    y[om + j] = idx as u8;
+                }
+                ev_hint_unpack::<S>(out, &format!("position {} repeated in poly {}{}", rep, i, if inner { " (inner pair)" } else { "" }), &y);
+            }
+        }
+    }
     for _ in 0..(if thorough { 400 } else { 40 }) { ev_hint_unpack::<S>(out, "random bytes", &p.bytes(om + S::K)); }
     // random structured sections with small random byte edits (valid and invalid mixed)
     for t in 0..(if thorough { 3000 } else { 300 }) {
@@ -134,6 +157,23 @@ pub fn per_set<S: MlDsa>(seed: u64, thorough: bool, out: &mut Out) {
         if let Some(h) = S::hint_unpack(&y) {
             match guarded(|| S::hint_pack(&h)) {
                 Ok(y2) => out.ev(json!({"ev": "HintPack", "set": S::SET, "h": ones(&h), "y": jbytes(&y2)})),
+                Err((loc, msg)) => out.ev(json!({"ev": "Panic", "set": S::SET, "what": format!("hint_bit_pack | {}: {}", loc, msg)})),
+            }
+        }
+    }
+    // HintBitPack at full weight with every placement of the LAST hint: alone in its polynomial (each polynomial in turn), at
+    // position 0 / 255, with empty polynomials after it
+    for i in 0..S::K {
+        for lastpos in [0usize, 255, 77] {
+            let mut h: Vec<Poly> = vec![[0i32; 256]; S::K];
+            // omega - 1 hints in the polynomials before i (or in polynomial 0 when i = 0 has to hold them all but one)
+            let mut placed = 0usize;
+            let mut q = 0usize;
+            while placed < om - 1 { let (pi, n) = if i == 0 { (0usize, q + 1) } else { (q % i, (q / i) * 2 + 1) }; if n < 256 && !(pi == i && n == lastpos) && h[pi][n] == 0 { h[pi][n] = 1; placed += 1; } q += 1; }
+            if h[i][lastpos] == 0 { h[i][lastpos] = 1; } else { continue; }
+            match guarded(|| S::hint_pack(&h)) {
+                Ok(y2) => { out.ev(json!({"ev": "HintPack", "set": S::SET, "what": format!("weight omega, last hint alone at poly {} position {}", i, lastpos), "h": ones(&h), "y": jbytes(&y2)}));
+                            ev_hint_unpack::<S>(out, &format!("unpack(pack(weight omega, last hint alone at poly {} position {}))", i, lastpos), &y2); }
                 Err((loc, msg)) => out.ev(json!({"ev": "Panic", "set": S::SET, "what": format!("hint_bit_pack | {}: {}", loc, msg)})),
             }
         }
